@@ -15,6 +15,10 @@ pull *exact source spans* out of /repo on every run and splice contracts / ghost
   //@@   ret <name>                              S1: `-> T` becomes `-> (name: T)`
   //@@   rule D2|D5                              tolerant textual rules (see RULES below)
   //@@   replace <rule> `<old>` => `<new>`       exact, must match exactly once (fail closed)
+  //@@   cutarm [#k] `<pattern>` => `<expr>`     rule D7: the match arm whose pattern is <pattern> (white-space
+                                                 insensitive, must match exactly one arm) keeps its pattern but its
+                                                 body is replaced by <expr> — normally a call of an uninterpreted
+                                                 `external_body` function: the arm's code is NOT verified
   //@@   insert before|after [#k] `<anchor>` :: <ghost text>
   //@@   insert before|after [#k] `<anchor>` <<  (multi-line ghost text until `//@@   >>`)
   //@@   contract                                lines up to `//@@   endcontract` go between signature and body
@@ -26,7 +30,7 @@ import difflib
 import os
 import re
 
-from .rustscan import LostAnchor, Source, Span, mask, match_close, split_fn
+from .rustscan import LostAnchor, Source, Span, depth_at, mask, match_close, split_fn
 
 GHOST_PREFIXES = ("proof {", "invariant", "decreases", "let ghost", "assert", "it:", "-> (", "ensures", "requires", "broadcast use")
 
@@ -102,7 +106,101 @@ def rule_D5c(body):
     return pat.sub(new, body, count=1), [("D5", f".map(|_| {ident})", new)]
 
 
-RULES = {"D2": rule_D2, "D5": rule_D5, "D5c": rule_D5c}
+def cut_arm(body, pattern, expr, ordinal=None):
+    """D7: replace the body of the one match arm whose pattern equals `pattern` (ignoring white-space); with
+    `#k of n` the k-th of exactly n such arms."""
+    m = mask(body)
+    # nesting depth over all bracket kinds, before each character
+    depth, d = [], 0
+    for ch in m:
+        if ch in ")]}":
+            d -= 1
+        depth.append(d)
+        if ch in "([{":
+            d += 1
+    want = re.sub(r"\s+", "", pattern)
+    hits = []
+    for mm in re.finditer(r"=>", m):
+        arrow = mm.start()
+        d0 = depth[arrow]
+        k = arrow - 1
+        # walk back to the end of the previous arm (`,` at the arm level, or the `}` of a block body) or to the `{`
+        # that opens the match; bracket groups that belong to the pattern itself (struct / tuple patterns) are skipped
+        while k >= 0:
+            if (m[k] == "," and depth[k] == d0) or (m[k] == "{" and depth[k] == d0 - 1):
+                break
+            if m[k] in ")]}" and depth[k] == d0:
+                # find the matching opener
+                j = k
+                while j >= 0 and not (m[j] in "([{" and depth[j] == d0):
+                    j -= 1
+                if j < 0:
+                    break
+                q = j - 1
+                while q >= 0 and m[q] in " \t\n":
+                    q -= 1
+                if m[k] == "}" and q >= 1 and m[q - 1:q + 1] == "=>":
+                    break          # block body of the previous arm
+                k = j - 1
+                continue
+            k -= 1
+        pat_start = k + 1
+        if re.sub(r"\s+", "", body[pat_start:arrow]) == want:
+            hits.append((pat_start, arrow))
+    if ordinal is None:
+        if len(hits) != 1:
+            raise LostAnchor(f"rule D7: arm pattern `{pattern[:60]}` matched {len(hits)} arms")
+        pat_start, arrow = hits[0]
+    else:
+        if not (1 <= ordinal <= len(hits)):
+            raise LostAnchor(f"rule D7: arm pattern `{pattern[:60]}` #{ordinal} of {len(hits)} arms")
+        pat_start, arrow = hits[ordinal - 1]
+    d0 = depth[arrow]
+    k = arrow + 2
+    while body[k] in " \t\n":
+        k += 1
+    if m[k] == "{":
+        end = match_close(m, k)
+        tail = end
+        while tail < len(body) and body[tail] in " \t":
+            tail += 1
+        if tail < len(body) and body[tail] == ",":
+            end = tail + 1
+    else:
+        end = k
+        while end < len(m) and not (m[end] == "," and depth[end] == d0) and not (m[end] == "}" and depth[end] == d0 - 1):
+            end += 1
+        if end < len(m) and m[end] == ",":
+            end += 1
+    old = body[k:end]
+    new_body = body[:k] + expr + "," + body[end:]
+    return new_body, [("D7", "arm `" + re.sub(r"\s+", " ", pattern)[:100] + "`: body of " + str(old.strip().count(chr(10)) + 1) + " line(s) replaced, not verified", expr)]
+
+
+def rule_D5m(body):
+    """D5 for the comparison closures handed to compare_/union_optional_asn1values: `|a, b| a.min(b, char_set)` (with or
+    without braces) gets typed parameters and a ghost signature stating ASN1Value::min / max on integers; the executable
+    expression is unchanged.  Applied to every such closure (at least one)."""
+    pat = re.compile(r"\|(\w+),\s*(\w+)\|\s*(\{?)\s*\1\.(min|max)\(\2,\s*char_set\)\s*(\}?)")
+    applied = []
+
+    def sub(mm):
+        a, b2, ob, which, cb = mm.groups()
+        if bool(ob) != bool(cb):
+            raise LostAnchor("rule D5m: unbalanced closure braces")
+        new = (f"|{a}: &ASN1Value, {b2}: &ASN1Value| -> (k: Result<ASN1Value, GrammarError>) ensures ({a} is Integer && {b2} is Integer) ==> "
+               f"k == Ok::<ASN1Value, GrammarError>(ASN1Value::Integer(i{which}({a}->Integer_0, {b2}->Integer_0))) {{ {a}.{which}({b2}, char_set) }}")
+        applied.append(("D5", re.sub(r"\s+", " ", mm.group(0)), new))
+        return new
+    if mask(body) != body and not pat.search(mask(body)):
+        pass
+    new_body = pat.sub(sub, body)
+    if not applied:
+        raise LostAnchor("rule D5m: no `|a, b| a.min/max(b, char_set)` closure found")
+    return new_body, applied
+
+
+RULES = {"D2": rule_D2, "D5": rule_D5, "D5c": rule_D5c, "D5m": rule_D5m}
 
 
 class FnUnit:
@@ -111,6 +209,7 @@ class FnUnit:
         self.id = None
         self.rename = self.selftype = self.vis = self.ret = None
         self.rules, self.replaces, self.inserts, self.contract = [], [], [], []
+        self.cutarms = []
 
 
 def parse_template(text):
@@ -170,6 +269,11 @@ def parse_template(text):
                     if not mm:
                         raise TemplateError(f"bad replace: {rest}")
                     fu.replaces.append(mm.groups())
+                elif key == "cutarm":
+                    mm = re.match(r"(?:#(\d+)\s+)?`(.*)`\s*=>\s*`(.*)`$", rest)
+                    if not mm:
+                        raise TemplateError(f"bad cutarm: {rest}")
+                    fu.cutarms.append((int(mm.group(1)) if mm.group(1) else None, mm.group(2), mm.group(3)))
                 elif key == "insert":
                     mm = re.match(r"(before|after)\s+(?:#(\d+)\s+)?`(.*)`\s*(::|<<)\s*(.*)$", rest)
                     if not mm:
@@ -267,6 +371,9 @@ def build(template_path, repo_root):
                 if r not in RULES:
                     raise TemplateError(f"unknown rule {r}")
                 body, applied = RULES[r](body)
+                drops += applied
+            for ordinal, pattern, expr in fu.cutarms:
+                body, applied = cut_arm(body, pattern, expr, ordinal)
                 drops += applied
             whole = sig + body
             for rule, old, new in fu.replaces:
